@@ -236,6 +236,8 @@ def route_histogram(chk, cases, bad, extra):
     c03_probe.run_bounded_probe(chk, extra)
     import c03_keyed_probe
     c03_keyed_probe.run(chk, extra)
+    import c03_itemprep_probe
+    c03_itemprep_probe.run(chk, extra)
 
 
 def run(tier, assumptions):
@@ -294,6 +296,9 @@ def replay(path):
     if raw.get("kind") == "probe-keyed":
         import c03_keyed_probe
         return c03_keyed_probe.replay(raw["scenario"])
+    if raw.get("kind") == "probe-itemprep":
+        import c03_itemprep_probe
+        return c03_itemprep_probe.replay(raw["scenario"])
     if raw.get("kind") == "probe-bounded":
         import c03_probe
         return c03_probe.replay_bounded(raw["scenario"])
